@@ -206,7 +206,19 @@ func (c *checker) CheckFunctions(t *parser.Thrift) (warns []string, err error) {
 				err = fmt.Errorf("[IDL grammar error] %s.%s: oneway methods can't throw exceptions from file %s", svc.Name, f.Name, t.Filename)
 				return
 			}
+			argIDs := make(map[int32]bool)
+			argNames := make(map[string]bool)
 			for _, a := range f.Arguments {
+				if argIDs[a.ID] {
+					err = fmt.Errorf("[IDL grammar error] duplicated argument ID %d in %s.%s from file %s", a.ID, svc.Name, f.Name, t.Filename)
+					return
+				}
+				if argNames[a.Name] {
+					err = fmt.Errorf("[IDL grammar error] duplicated argument name %q in %s.%s from file %s", a.Name, svc.Name, f.Name, t.Filename)
+					return
+				}
+				argIDs[a.ID] = true
+				argNames[a.Name] = true
 				if a.Requiredness == parser.FieldType_Optional {
 					argOpt = t.Filename + ": optional keyword is ignored in argument lists."
 					if c.FixWarnings {
@@ -218,7 +230,19 @@ func (c *checker) CheckFunctions(t *parser.Thrift) (warns []string, err error) {
 						a.ID, a.Name, svc.Name, f.Name))
 				}
 			}
+			throwIDs := make(map[int32]bool)
+			throwNames := make(map[string]bool)
 			for _, a := range f.Throws {
+				if throwIDs[a.ID] {
+					err = fmt.Errorf("[IDL grammar error] duplicated exception ID %d in %s.%s from file %s", a.ID, svc.Name, f.Name, t.Filename)
+					return
+				}
+				if throwNames[a.Name] {
+					err = fmt.Errorf("[IDL grammar error] duplicated exception name %q in %s.%s from file %s", a.Name, svc.Name, f.Name, t.Filename)
+					return
+				}
+				throwIDs[a.ID] = true
+				throwNames[a.Name] = true
 				switch a.Requiredness {
 				case parser.FieldType_Required:
 					warns = append(warns, fmt.Sprintf("exception %q in %q.%q: throw field must be optional, ignoring specified requiredness.",
